@@ -80,6 +80,8 @@ struct Results {
     dgram_recv: BTreeMap<u64, u32>,
     labels: Vec<(String, Arc<Mutex<String>>)>,
     server_conns_done: u32,
+    /// the server endpoint was closed in the middle of the workload
+    server_gone: bool,
     open_conns_at_end: Vec<usize>,
     /// clients whose main task has run to its end
     clients_done: u32,
@@ -463,8 +465,9 @@ async fn client_main(sim: Sim, res: Res, lbl: Lbl, ep: Endpoint, cfg: quinn::Cli
                 // the attempt was meant to fail — with the reason the server's decision implies
                 let refused = matches!(&e, quinn::ConnectionError::ConnectionClosed(c) if c.error_code == quinn_proto::TransportErrorCode::CONNECTION_REFUSED);
                 let timed_out = matches!(e, quinn::ConnectionError::TimedOut);
-                let (fault_free, lossy) = { let r = res.lock().unwrap(); (r.fault_free, r.lossy) };
-                let ok = if plan.gate == 3 { timed_out } else { refused || (lossy && timed_out) };
+                let (fault_free, lossy, server_gone) = { let r = res.lock().unwrap(); (r.fault_free, r.lossy, r.lost.contains(&ci)) };
+                // (a server endpoint that was closed meanwhile refuses or stays silent by itself)
+                let ok = server_gone || if plan.gate == 3 { timed_out } else { refused || (lossy && timed_out) };
                 if !ok && (fault_free || !timed_out) {
                     sim.violate("async-connect-wrong-failure", format!("client {}: the server application {} the attempt, connect() failed with: {}", ci, match plan.gate { 1 => "refused", 2 => "dropped", _ => "ignored" }, e));
                     return;
@@ -479,6 +482,17 @@ async fn client_main(sim: Sim, res: Res, lbl: Lbl, ep: Endpoint, cfg: quinn::Cli
                 return;
             }
             Err(e) => {
+                if res.lock().unwrap().lost.contains(&ci) {
+                    // (the server endpoint was closed under the handshake's feet)
+                    sim.with(|s| s.probes.hit("connect_failed_server_gone"));
+                    lbl.set("wait_idle()");
+                    ep.wait_idle().await;
+                    res.lock().unwrap().open_conns_at_end.push(ep.open_connections());
+                    drop(ep);
+                    res.lock().unwrap().clients_done += 1;
+                    lbl.set("done");
+                    return;
+                }
                 sim.violate("async-connect-failed", format!("client {}: {}", ci, e));
                 return;
             }
@@ -771,7 +785,7 @@ async fn server_conn(sim: Sim, res: Res, lbl: Lbl, conn: Connection, ci: u32, re
     lbl.set("done");
 }
 
-async fn server_main(sim: Sim, res: Res, lbl: Lbl, ep: Endpoint, n_conns: u32, addr_to_ci: BTreeMap<SocketAddr, u32>, resp: usize, seq_ci: Option<Vec<u32>>, gates: BTreeMap<u32, u8>) {
+async fn server_main(sim: Sim, res: Res, lbl: Lbl, ep: Endpoint, n_conns: u32, addr_to_ci: BTreeMap<SocketAddr, u32>, resp: usize, seq_ci: Option<Vec<u32>>, gates: BTreeMap<u32, u8>, abrupt: Option<Ns>) {
     let (tx, mut rx) = tokio::sync::mpsc::unbounded_channel::<()>();
     {
         let (s2, r2, ep2, tx2) = (sim.clone(), res.clone(), ep.clone(), tx.clone());
@@ -879,6 +893,22 @@ async fn server_main(sim: Sim, res: Res, lbl: Lbl, ep: Endpoint, n_conns: u32, a
         if res.lock().unwrap().clients_done >= n_conns {
             break;
         }
+        if let Some(t) = abrupt {
+            let now = sim.with(|s| s.now);
+            if now >= t {
+                // the server process goes away under everybody's feet: whatever the clients were
+                // doing may fail from here on, but every pending operation must still complete
+                let mut r = res.lock().unwrap();
+                for ci in 0..n_conns {
+                    r.lost.insert(ci);
+                }
+                r.server_gone = true;
+                drop(r);
+                sim.with(|s| s.probes.hit("server_endpoint_closed_mid_workload"));
+                break;
+            }
+            nap = nap.min(t - now);
+        }
         sleep(&sim, nap).await;
         nap = (nap * 2).min(500 * MS);
     }
@@ -937,6 +967,7 @@ fn run(mut ch: Chooser, ctx: &RunCtx, faults: bool, big: bool) -> RunOut {
             p.abandon_connect = Some(1 + ch.choose("c18.abandon_polls", 6));
         }
     }
+    let abrupt: Option<Ns> = if ch.chance("c18.server_abrupt_close", 1, 8) { Some(ch.range_log("c18.server_abrupt_close_us", 1, 3_000_000) * 1000) } else { None };
     let knobs_s = if ch.chance("c18.default_knobs", 1, 2) { TKnobs::default() } else { TKnobs::draw(&mut ch) };
     let knobs_c = if ch.chance("c18.default_knobs_c", 1, 2) { TKnobs::default() } else { TKnobs::draw(&mut ch) };
     let mut ks = knobs_s.clone();
@@ -1000,7 +1031,7 @@ fn run(mut ch: Chooser, ctx: &RunCtx, faults: bool, big: bool) -> RunOut {
     let gates: BTreeMap<u32, u8> = plans.iter().enumerate().map(|(ci, p)| (ci as u32, p.gate)).collect();
     {
         let (s2, r2) = (sim.clone(), res.clone());
-        spawn(&sim, &res, "server-main".to_string(), move |l| Box::pin(server_main(s2, r2, l, server_ep, n_clients, addr_to_ci, resp, None, gates)));
+        spawn(&sim, &res, "server-main".to_string(), move |l| Box::pin(server_main(s2, r2, l, server_ep, n_clients, addr_to_ci, resp, None, gates, abrupt)));
     }
     // clients
     for ci in 0..n_clients {
@@ -1094,7 +1125,7 @@ fn run(mut ch: Chooser, ctx: &RunCtx, faults: bool, big: bool) -> RunOut {
         }
     }
     let cancels = r.cancels;
-    let n_lost = r.lost.len() as u64;
+    let n_lost = if r.server_gone { 0 } else { r.lost.len() as u64 };
     drop(r);
     sim.with(|s| {
         if cancels > 0 {
@@ -1329,7 +1360,7 @@ fn run_0rtt(mut ch: Chooser, ctx: &RunCtx) -> RunOut {
         // the second connection's streams are the early ones (accepted) or the ones opened after
         // the handshake (early data refused: the server never sees the early streams)
         let seq = vec![0, if reject { 2 } else { 1 }];
-        spawn(&sim, &res, "server-main".to_string(), move |l| Box::pin(server_main(s2, r2, l, ep2, 1, BTreeMap::new(), resp, Some(seq), BTreeMap::new())));
+        spawn(&sim, &res, "server-main".to_string(), move |l| Box::pin(server_main(s2, r2, l, ep2, 1, BTreeMap::new(), resp, Some(seq), BTreeMap::new(), None)));
     }
     let cep = EpOpts { seed: 0xC11E, cid_len: 8, reset_key_seed: 100, ..Default::default() };
     let ep = Endpoint::new_with_abstract_socket(cfgs::endpoint_config(&cep), None, sim.socket(cfgs::addr(1, 0)), rt.clone()).expect("client endpoint");
